@@ -53,6 +53,7 @@ CONSTANTS Kind,        \* "jakes" | "rayleigh" | "funcfresh" (generate_jakes_sam
           MaxGens,     \* 1: Similar disabled;  2: one sibling may be created
           GenDefault,  \* BOOLEAN: generate_more_samples() without argument is offered
           Lattice,     \* BOOLEAN: exact sample values (quarter-turn phases)
+          HalfCos,     \* BOOLEAN (lattice): arrival angles also at 60 degrees (cos phi = +-1/2); needs an even FdQ
           L,           \* number of rays (lattice instance)
           FdQ,         \* Doppler of the lattice instance in quarter turns per sample (0, 1, 2)
           Dev          \* [name |-> BOOLEAN]
@@ -75,24 +76,37 @@ QPhi(d, l, e) == (l + d + e * (l + 1)) % 4
 QPsi(d, l, e) == IF d = 1 /\ e = 0 THEN 1 ELSE (l * l + 2 * d + 3 * e + l) % 4   \* draw 1: all rays aligned at k = 0
 CosQ(q)  == CASE q = 0 -> 1 [] q = 1 -> 0 [] q = 2 -> -1 [] q = 3 -> 0
 UnitQ(m) == CASE m = 0 -> <<1, 0>> [] m = 1 -> <<0, 1>> [] m = 2 -> <<-1, 0>> [] m = 3 -> <<0, -1>>
-RECURSIVE SumRays(_, _, _, _, _)
-SumRays(d, e, r, l, top) ==    \* SUM over rays l..top-1 of the unit phasor at sample index = r (mod 4)
+\* Arrival angles in units of 30 degrees (1/12 turn).  Plain lattice: multiples of 90 degrees, cos in {1, 0, -1}.
+\* HalfCos lattice: also 60, 120, 240, 300 degrees, cos = +-1/2 - there a Doppler of a WHOLE number of turns per
+\* sample (FdQ = 4: Fd*Ts = 1) still moves the ray by half a turn per sample: whole turns may be dropped from the
+\* PHASE, never from Fd*Ts before it is multiplied by cos(phi_l).
+Ang12 == <<0, 2, 3, 4, 6, 8, 9, 10>>
+QPhi12(d, l, e) == IF HalfCos THEN Ang12[((l + d + e * (l + 1)) % 8) + 1] ELSE 3 * QPhi(d, l, e)
+Cos2(a) == CASE a = 0 -> 2 [] a = 2 -> 1 [] a = 3 -> 0 [] a = 4 -> -1 [] a = 6 -> -2 [] a = 8 -> -1 [] a = 9 -> 0 [] a = 10 -> 1
+\* phase advance per sample of ray l in quarter turns for a Doppler of fd quarter turns per sample (fd even if HalfCos)
+Adv(fd, d, l, e) == (fd * Cos2(QPhi12(d, l, e))) \div 2
+ASSUME (Lattice /\ HalfCos) => FdQ % 2 = 0
+RECURSIVE SumRays(_, _, _, _, _, _)
+SumRays(d, e, r, l, top, fd) ==    \* SUM over rays l..top-1 of the unit phasor at sample index = r (mod 4)
   IF l >= top THEN <<0, 0>>
-  ELSE LET u == UnitQ((FdQ * CosQ(QPhi(d, l, e)) * r + QPsi(d, l, e)) % 4)
-           t == SumRays(d, e, r, l + 1, top)
+  ELSE LET u == UnitQ((Adv(fd, d, l, e) * r + QPsi(d, l, e)) % 4)
+           t == SumRays(d, e, r, l + 1, top, fd)
        IN  <<u[1] + t[1], u[2] + t[2]>>
-Val(d, e, r) == SumRays(d, e, r, 0, L)                   \* sqrt(L) * h at any k with k % 4 = r: ALL L rays
+Val(d, e, r) == SumRays(d, e, r, 0, L, FdQ)              \* sqrt(L) * h at any k with k % 4 = r: ALL L rays
 \* The machine may accumulate the rays in passes of RayPass (bounded temporaries).  Whatever the pass
 \* structure, every one of the L rays has to arrive in the sum; the deviation computes the number of passes
 \* by floor division and so drops the last L % RayPass rays once L > RayPass (the scaling stays 1/sqrt(L)).
 RayPass == 16
 LSummed == IF Dev.DropsTailRays /\ L >= RayPass THEN (L \div RayPass) * RayPass ELSE L
-ValM(d, e, r) == SumRays(d, e, r, 0, LSummed)            \* what the machine returns
+\* deviation: the code works in sample indexes with the Doppler reduced to its fractional number of turns per
+\* sample BEFORE the cos(phi_l) factor (fmod(Fd*Ts, 1)): wrong process as soon as Fd*Ts >= 1
+FdQM == IF Dev.DopplerFoldedBeforeCos /\ FdQ >= 0 THEN FdQ % 4 ELSE FdQ
+ValM(d, e, r) == SumRays(d, e, r, 0, LSummed, FdQM)      \* what the machine returns
 PeriodTable(d, sh) == [e \in 1..Prod(sh) |-> [r \in 1..4 |-> Val(d, e - 1, r - 1)]]
 \* the numbers the (table-driven) random source must deliver for draw d and shape sh: rand(L, sh.., 1)
-\* row-major; the code multiplies by 2 pi, so quarter q is delivered as q/4 (the replay divides)
+\* row-major; the code multiplies by 2 pi: phi is delivered in twelfths of a turn, psi in quarters (the replay divides)
 DrawTable(d, sh) == LET E == Prod(sh) IN
-  [phi |-> [i \in 1..(L * E) |-> QPhi(d, (i - 1) \div E, (i - 1) % E)],
+  [phi |-> [i \in 1..(L * E) |-> QPhi12(d, (i - 1) \div E, (i - 1) % E)],
    psi |-> [i \in 1..(L * E) |-> QPsi(d, (i - 1) \div E, (i - 1) % E)]]
 \* |scale|^2 of the sum: every ray carries power 1/L
 Norm2 == IF Dev.NormOneOverL THEN <<1, L * L>> ELSE <<1, L>>
@@ -350,7 +364,7 @@ BuffersDistinct == \A g, h \in 1..NG : g # h => gens[g].buf # gens[h].buf
 \*   QueriesPure             get_samples / shape / L / Ts / Fd may be read any number of times without effect
 Frame == {"EarlierBlocksUnchanged", "OthersUnchanged", "ArgumentsUnchanged", "QueriesPure"}
 Laws(r) == IF r.op \in BlockOps
-             THEN Frame \cup {"Count", "Contiguity", "OnGrid", "PhasesFixed", "Bound", "EveryRayCounts"}
+             THEN Frame \cup {"Count", "Contiguity", "OnGrid", "PhasesFixed", "Bound", "EveryRayCounts", "DopplerNotFolded"}
                         \cup (IF r.op = "Construct" THEN {"AnyIntTypeSameShape"} ELSE {})
                         \cup (IF (Lattice /\ FdQ = 0) THEN {"ZeroDoppler"} ELSE {})
              ELSE Frame \cup {"StoredBlockKept"} \cup (IF r.op = "SetShape" THEN {"AnyIntTypeSameShape"} ELSE {})
@@ -358,6 +372,8 @@ Laws(r) == IF r.op \in BlockOps
 \* exact values (lattice instance): |h|^2 = (re^2 + im^2) * Norm2 <= L for every draw, element, index
 AllVals == {ValM(d, e, r) : d \in 1..draws, e \in 0..1, r \in 0..3}
 \* every ray of the model is in the sum, for every ray count (also beyond / not a multiple of the pass size)
+\* any Doppler, also one or more whole turns per sample, gives the process of the statement
+DopplerNotFolded == Lattice => \A d \in 1..draws, e \in 0..1, r \in 0..3 : ValM(d, e, r) = Val(d, e, r)
 EveryRayCounts == Lattice => \A d \in 1..draws, e \in 0..1, r \in 0..3 : ValM(d, e, r) = Val(d, e, r)
 Bound == Lattice => \A v \in AllVals : (v[1] * v[1] + v[2] * v[2]) * Norm2[1] <= L * Norm2[2]
 \* the bound is attained: with all rays aligned (draw 1, element 0, k = 0) |h|^2 = L
